@@ -131,6 +131,7 @@ type obs struct {
 	Returned []int    // members in the order their functions returned
 	Left     []string // goroutines of pkg/group still alive after every released member returned (group frames only)
 	Stuck    string   // harness problem (quiescence not reached)
+	Strays   []string // Group-adapter cases: calls the Group made with a name that belongs to no entry of its member list (naming.go)
 }
 
 type run struct {
@@ -151,11 +152,18 @@ type run struct {
 	call  func(r *run, ctx context.Context, members []group.Member) // nil: pkg/group directly
 	value string                                                    // call != nil: the reduced value returned / last sent
 
+	strays   []string
 	panicMsg string
 	slice    []proto.Message
 	msg      proto.Message
 	idx      int
 	err      error
+}
+
+func (r *run) noteStray(name string) {
+	r.mu.Lock()
+	r.strays = append(r.strays, strconv.Quote(name))
+	r.mu.Unlock()
 }
 
 func (r *run) msgOf(k int) proto.Message {
@@ -526,6 +534,7 @@ func runCase(c tcase) obs {
 		o.Inv = append([]int(nil), r.inv...)
 		o.Actual = append([]resp(nil), r.actual...)
 		o.Returned = append([]int(nil), r.ret...)
+		o.Strays = append([]string(nil), r.strays...)
 		r.mu.Unlock()
 		if o.Stuck == "" {
 			o.Stuck = "call did not return after every member returned"
@@ -551,6 +560,7 @@ func runCase(c tcase) obs {
 	o.Inv = append([]int(nil), r.inv...)
 	o.Actual = append([]resp(nil), r.actual...)
 	o.Returned = append([]int(nil), r.ret...)
+	o.Strays = append([]string(nil), r.strays...)
 	r.mu.Unlock()
 	return o
 }
